@@ -430,6 +430,7 @@ impl<K: HKey> Store<K> {
             _ => json!({"on": false, "orphaned": [], "missing": [], "corrupted": [], "invalid": 0, "staging": 0, "total": 0}),
         };
         json!({
+            "casw": crate::shim::cas_writes(),
             "open": self.cas.is_some(), "idx": idx, "sizes": sizes, "iter": iter, "len": len, "xkeys": extra_keys,
             "refc": refc, "refx": refx, "stats": stats, "ixsz": ixsz,
             "get": get, "gsize": if lite { vec![] } else { gsize }, "rdr": if lite { vec![] } else { rdr },
